@@ -40,6 +40,7 @@ def _probe(acc, mech, text, what):
 def run(acc):
   _probe(acc, 'compile_time_syntax_error_fails_apply', 'await $A', "an error only the compiler finds ('await' outside async function)")
   _probe(acc, 'nul_character_fails_apply', 'a\0b', 'a NUL character')
+  _probe(acc, 'error_stub_position_out_of_range', '"""\n"""\\=\n', 'a syntax error reported on the line after the last line of the text')
   _probe(acc, 'line_structure_characters', 'x = $A\rx + 1', 'a lone carriage return (old Mac line ending)')
   _probe(acc, 'line_structure_characters', '\x0c$A', 'a form feed before the expression')
   _probe(acc, 'line_structure_characters', 'x\r    pass\r  def Ctl(rec, table):\r    return 666\r  def P_(rec, table):',
